@@ -23,11 +23,13 @@ CONSTRUCTS = {
  'let_let': "let\n  a = 1;\nin\nlet\n  b = 2;\nin\na", 'let_let_let': "let\n  a = 1;\nin\nlet\n  b = 2;\nin\nlet\n  c = 3;\nin\n{\n  d = a;\n}",
  'let_empty': "let in x", 'let_empty_set': "let\nin\n{\n  a = 1;\n}", 'mixed_attrpath': "{\n  a.b = 1;\n  a = {\n    c = 2;\n  };\n}",
  'mixed_attrpath_rev': "{\n  a = {\n    c = 2;\n  };\n  a.b = 1;\n}", 'dup_sets': "{\n  a = {\n    b = 1;\n  };\n  a = {\n    c = 2;\n  };\n}",
+ 'dup_attrpath_sets': "{\n  a.b = {\n    x = 1;\n  };\n  a.b = {\n    y = 2;\n  };\n}", 'dup_attrpath_sets_apart': "{\n  s.n = {\n    e = true;\n  };\n  z = 1;\n  s.n = {\n    u = 2;\n  };\n}",
+ 'dup_attrpath_inherit': "{\n  a.b = {\n    inherit x;\n  };\n  a.b = {\n    inherit y;\n  };\n}", 'dup_attrpath_deep': "{\n  a.b.c = {\n    x = 1;\n  };\n  a.b.c = {\n    y = 2;\n  };\n  a.b.d = 3;\n}",
  'attrpath_deeper_mixed': "{\n  a.b.c = 1;\n  a.b = {\n    d = 2;\n  };\n}", 'empty_formals': "{ }: x", 'empty_formals_at': "{ }@args: x", 'formals_ellipsis_only': "{ ... }: x",
 }
 KINDS = {
  'sp': ' ', 'sp2': '   ', 'tab': '\t', 'nl': '\n', 'nl_ind': '\n    ', 'blank': '\n\n', 'blank3': '\n\n\n  ',
- 'eol_c': ' # c\n', 'own_c': '\n# c\n', 'own_c_blank': '\n\n# c\n\n', 'inl_b': ' /* c */ ', 'own_b': '\n/* c */\n',
+ 'eol_c': ' # c\n', 'own_c': '\n# c\n', 'own_c_ind': '\n      # c\n', 'own_c_blank': '\n\n# c\n\n', 'inl_b': ' /* c */ ', 'own_b': '\n/* c */\n',
  'ml_b': '\n/* a\n   b */\n', 'doc_b': '\n/** d */\n', 'hash_nospace': '\n#c\n',
  'eol_c_blank': ' # c\n\n', 'eol_b_blank': ' /* c */\n\n', 'own_c_two': '\n# c\n# d\n', 'blank_own_c': '\n\n# c\n', 'own_c_blank_after': '\n# c\n\n\n',
  'two_b': ' /* a */ /* b */ ', 'b_then_eol_c': ' /* a */ # b\n', 'two_own_b': '\n/* a */ /* b */\n',
@@ -37,7 +39,7 @@ KINDS = {
  'ml_b_under': ' /* alpha\nbeta */ ', 'ml_b_under_own': '\n    /* title\n  body line\nlast */\n', 'ml_doc_under': ' /** alpha\n beta\nc */\n',
 }
 WS_KINDS = {'sp', 'sp2', 'tab', 'nl', 'nl_ind', 'blank', 'blank3'}
-LINE_LEVEL = {'ml_b_tab', 'ml_b_tab2', 'ml_b_under_own', 'eol_c', 'own_c', 'own_c_blank', 'own_b', 'ml_b', 'doc_b', 'hash_nospace', 'eol_c_blank', 'eol_b_blank', 'own_c_two', 'blank_own_c', 'own_c_blank_after', 'tight_eol_c'}       # comment alone on a line or at the end of one
+LINE_LEVEL = {'own_c_ind', 'ml_b_tab', 'ml_b_tab2', 'ml_b_under_own', 'eol_c', 'own_c', 'own_c_blank', 'own_b', 'ml_b', 'doc_b', 'hash_nospace', 'eol_c_blank', 'eol_b_blank', 'own_c_two', 'blank_own_c', 'own_c_blank_after', 'tight_eol_c'}       # comment alone on a line or at the end of one
 CONTEXTS = {'lambda_body': lambda e: 'x:\n' + e, 'top': lambda e: e, 'lead_ws': lambda e: '\n   ' + e,        # lead_ws: the file starts with whitespace (fifth round: gaps were read at shifted offsets)
             'bindval': lambda e: "{\n  v = " + e.replace("\n", "\n  ") + ";\n}", 'listitem': lambda e: "[\n  " + e.replace("\n", "\n  ") + "\n]"}
 NOT_LIST_ITEMS = ('import', 'import_call', 'import_nl', 'import_paren', 'let_let', 'let_let_let', 'let_empty', 'let_empty_set', 'empty_formals', 'empty_formals_at', 'formals_ellipsis_only', 'with_list', 'with_set', 'with_istr', 'with_paren', 'with_call', 'with_multi_list', 'assert_list', 'assert_set', 'lambda_list', 'lambda_set', 'lambda_formals_set', 'let_set', 'let_list', 'if_set', 'call_list', 'call_istr', 'concat_list', 'update_set', 'formal_default_list', 'formal_default_multi', 'not_paren', 'inherit_in_let', 'if_multi', 'if_chain', 'with_multi', 'assert_multi', 'lambda_nl', 'call_multi', 'binary_multi', 'call', 'with', 'assert', 'if', 'lambda_id', 'lambda_formals', 'lambda_formals_multi', 'lambda_at', 'lambda_at_pre', 'let', 'binary', 'chain', 'update', 'has_attr', 'not', 'neg', 'select_or', 'call_set')
@@ -119,3 +121,28 @@ def iter_cells():
             p = e + '\n'; lp = lex(p)
             if lp is None: continue
             yield ['nest', '>'.join(seq), 'canonical', 'top'], p, lp
+
+# ---- two comments at once (seventh round of seeds): every pair of gaps of a construct, three line-level kinds each; the comments are worded
+# differently (p / q) so that their order can be judged.  A pair cell is reported only when both of its single cells pass (slot_matrix.py).
+PAIR_KINDS = ['own_c', 'own_c_ind', 'eol_c']
+def iter_pair_cells(contexts=('top',)):
+    for cname, expr in CONSTRUCTS.items():
+        for ctx in contexts:
+            wrap = CONTEXTS[ctx]
+            if ctx == 'listitem' and cname in NOT_LIST_ITEMS: continue
+            base = wrap(expr); toks, tail = lex(base)
+            inner = lex(expr)[0]; n_in = len(inner)
+            start = next(i for i in range(len(toks)) if [t[2] for t in toks[i:i + n_in]] == [t[2] for t in inner])
+            slots = list(range(start + 1, start + n_in))
+            for a in range(len(slots)):
+                for b in range(a + 1, len(slots)):
+                    for ka in PAIR_KINDS:
+                        for kb in PAIR_KINDS:
+                            parts = []
+                            for i, (g, ty, tx) in enumerate(toks):
+                                parts.append(KINDS[ka].replace('# c', '# p') if i == slots[a] else KINDS[kb].replace('# c', '# q') if i == slots[b] else g); parts.append(tx)
+                            p = ''.join(parts) + tail
+                            lp = lex(p)
+                            if lp is None or code(lp[0]) != code(toks): continue
+                            sa = '%s|%s' % (toks[slots[a] - 1][2], toks[slots[a]][2]); sb = '%s|%s' % (toks[slots[b] - 1][2], toks[slots[b]][2])
+                            yield [cname, sa + '+' + sb, ka + '+' + kb, ctx], p, lp, ([cname, sa, ka, ctx], [cname, sb, kb, ctx])
